@@ -195,6 +195,64 @@ def check_args(rep, proj):
               "; ".join(problems)[:400])
 
 
+def check_entry(rep, proj):
+    """Output.apply_pdf(pdf) is apply_pdf_theory(pdf, <the theory card the output carries>): same PDF object, the output's own card.
+    MaskedPDF(pdf, pids).xfxQ2 answers with the parent's value for an active pid and with exactly 0 for any other, and forwards every
+    other attribute (hasFlavor, ...) to the parent."""
+    out_cls = proj.cls(OUT, "Output")
+    f = out_cls.find_method("apply_pdf")
+    if f is not None:
+        ev = S.Evaluator(proj, lenient_ext=True)
+        got = []
+        ev.summaries[f"{OUT}::Output.apply_pdf_theory"] = lambda ev_, self_, pdf_, theory_, *a, **k: got.append((self_, pdf_, theory_, a, k)) or "RESULT"
+        out = ev.instantiate(S.ClassVal(ev, out_cls), [], {})
+        card = {"PTO": 1, "marker": A.sym("THEORY_OF_THIS_OUTPUT")}
+        try:
+            ev.setattr(out, "theory", card, None) if hasattr(ev, "setattr") else out.attrs.__setitem__("theory", card)
+            pdf = S.record("pdf")
+            r = ev.call(ev.getattr(out, "apply_pdf", None), [pdf], {})
+            ok = r == "RESULT" and len(got) == 1 and got[0][0] is out and got[0][1] is pdf and got[0][2] is card and not got[0][3] and not got[0][4]
+            rep.check(ok, "C17.entry", f.site, f.fq, "forwards the PDF and the output's own theory card to apply_pdf_theory and returns its result",
+                      f"calls: {[(type(g[1]).__name__, g[2] is card) for g in got]}; returns {r!r}")
+        except A.Undecided as e:
+            rep.undecided("C17.entry", f.site, f.fq, str(e))
+        except S.Raised as e:
+            rep.bad("C17.entry", f.site, f.fq, f"raises {e.etype}: {e.msg}")
+    m_cls = proj.modules[OUT].classes.get("MaskedPDF") if OUT in proj.modules else None
+    if m_cls is None:
+        rep.note("C17.entry: no MaskedPDF class in the output module (nothing to decide)")
+        return
+    ev = S.Evaluator(proj, lenient_ext=True)
+    asked = []
+
+    def xfx(pid, x, q2):
+        asked.append(S.num_norm(pid))
+        return A.opaque("xf", (S.num_norm(pid), S.num_norm(x), S.num_norm(q2)))
+
+    parent = S.record("pdf", xfxQ2=S._NativeFn(xfx), hasFlavor=S._NativeFn(lambda pid: True), marker="PARENT")
+    xm = m_cls.find_method("xfxQ2")
+    try:
+        masked = ev.instantiate(S.ClassVal(ev, m_cls), [parent, [21, 1, -1]], {})
+        x, q2 = A.sym("xB", True), A.sym("Q2", True)
+        problems = []
+        for pid in (21, 1, -1):
+            v = ev.call(ev.getattr(masked, "xfxQ2", None), [pid, x, q2], {})
+            if A.canon(S.num_norm(v)) != A.canon(A.opaque("xf", (pid, x, q2))):
+                problems.append(f"active pid {pid}: {A.canon(S.num_norm(v))[:60]}")
+        for pid in (2, -2, 5, 22):
+            v = S.num_norm(ev.call(ev.getattr(masked, "xfxQ2", None), [pid, x, q2], {}))
+            if isinstance(v, A.Rat) or v != 0:
+                problems.append(f"masked pid {pid} gives {v}")
+        if ev.getattr(masked, "marker", None) != "PARENT":
+            problems.append("other attributes are not the parent's")
+        rep.check(not problems, "C17.entry", (xm or m_cls).site, f"{m_cls.fq}.xfxQ2", "parent's value for active pids, exactly 0 for the others, other attributes forwarded",
+                  "; ".join(problems))
+    except A.Undecided as e:
+        rep.undecided("C17.entry", m_cls.site, f"{m_cls.fq}.xfxQ2", str(e))
+    except S.Raised as e:
+        rep.bad("C17.entry", m_cls.site, f"{m_cls.fq}.xfxQ2", f"raises {e.etype}: {e.msg}")
+
+
 def check_alphas(rep, proj):
     out_cls = proj.cls(OUT, "Output")
     f = out_cls.find_method("apply_pdf_theory")
@@ -346,4 +404,5 @@ def run(rep, proj, tier):
     state.check(rep, proj, "C17.state", module_filter=lambda m: m.name in ('yadism.output', 'yadism.esf.result'))
     check_formula(rep, proj)
     check_args(rep, proj)
+    check_entry(rep, proj)
     check_alphas(rep, proj)
